@@ -470,3 +470,84 @@ def inline_module(tree):
     inl = Inliner(tree)
     n = inl.run()
     return n, sorted(inl.inlined_names)
+
+
+# ---------------------------------------------------------------------------
+# second normalisation: copy propagation of attribute / bound-method aliases
+# ---------------------------------------------------------------------------
+def _attr_chain(e):
+    return isinstance(e, ast.Name) or (isinstance(e, ast.Attribute) and _attr_chain(e.value))
+
+
+def propagate_aliases(tree, property_names):
+    """`x = a.b.c` bound exactly once in a function, never rebound, `a.b.c` not a property of the package and its
+    last attribute never assigned in that function: replace the uses of `x` by `a.b.c` and drop the binding.
+    Undoes "cache the attribute / bound method in a local" micro-optimisations (analysis only)."""
+    n_done = 0
+    for fn in [n for n in ast.walk(tree) if isinstance(n, (ast.FunctionDef, ast.AsyncFunctionDef))]:
+        params = {a.arg for a in fn.args.posonlyargs + fn.args.args + fn.args.kwonlyargs}
+        if fn.args.vararg:
+            params.add(fn.args.vararg.arg)
+        if fn.args.kwarg:
+            params.add(fn.args.kwarg.arg)
+        stores = {}
+        nodes = []
+        stack = list(fn.body)
+        while stack:
+            n = stack.pop()
+            nodes.append(n)
+            for c in ast.iter_child_nodes(n):
+                if isinstance(c, (ast.FunctionDef, ast.AsyncFunctionDef, ast.Lambda, ast.ClassDef)):
+                    nodes.append(c)  # names used inside closures still count as uses
+                    stack.append(c)
+                else:
+                    stack.append(c)
+        for n in nodes:
+            if isinstance(n, ast.Name) and isinstance(n.ctx, (ast.Store, ast.Del)):
+                stores.setdefault(n.id, 0)
+                stores[n.id] += 1
+        attr_stores = {n.attr for n in nodes if isinstance(n, ast.Attribute) and isinstance(n.ctx, (ast.Store, ast.Del))}
+        cands = {}
+        for st in fn.body:
+            for n in ast.walk(st):
+                if isinstance(n, ast.Assign) and len(n.targets) == 1 and isinstance(n.targets[0], ast.Name) \
+                        and isinstance(n.value, ast.Attribute) and _attr_chain(n.value):
+                    name = n.targets[0].id
+                    if stores.get(name) == 1 and name not in params and n.value.attr not in property_names \
+                            and n.value.attr not in attr_stores:
+                        root = n.value
+                        while isinstance(root, ast.Attribute):
+                            root = root.value
+                        # the root name must itself be stable (parameter or single-assignment local)
+                        if root.id in params or stores.get(root.id, 0) <= 1:
+                            cands[name] = n
+        if not cands:
+            continue
+
+        class R(ast.NodeTransformer):
+            def visit_Name(self, node):
+                if node.id in cands and isinstance(node.ctx, ast.Load):
+                    return ast.copy_location(copy.deepcopy(cands[node.id].value), node)
+                return node
+
+            def visit_Assign(self, node):
+                if any(node is c for c in cands.values()):
+                    return None
+                self.generic_visit(node)
+                return node
+        for i, st in enumerate(list(fn.body)):
+            fn.body[i] = R().visit(st)
+        fn.body = [s_ for s_ in fn.body if s_ is not None] or [ast.Pass()]
+        _prune_empty(fn)
+        n_done += len(cands)
+    if n_done:
+        ast.fix_missing_locations(tree)
+    return n_done
+
+
+def _prune_empty(fn):
+    for n in ast.walk(fn):
+        for field in ("body", "orelse", "finalbody"):
+            blk = getattr(n, field, None)
+            if isinstance(blk, list) and field == "body" and not blk and not isinstance(n, ast.Module):
+                setattr(n, field, [ast.Pass()])
